@@ -3,6 +3,14 @@ import YaraModel.Model.PeRva
 namespace YaraModel.PeRva
 open YaraModel.Gen.Bounds
 
+/-- frozen copy of elf.c `is_valid_ptr` as of yara 4.5.2 (the live text is regenerated into Gen.Bounds) -/
+def is_valid_ptr_v452 (base size ptr ptr_size : BitVec 64) : Bool :=
+  ((decide (base ≤ ptr) && decide (ptr_size ≤ size)) && decide ((ptr + ptr_size) ≤ (base + size)))
+
+/-- frozen copy of the arena.c relocation test as of yara 4.5.2 -/
+def arena_reloc_reject_v452 (buffer_id num_buffers offset used bdata : BitVec 64) : Bool :=
+  ((decide (num_buffers ≤ buffer_id) || decide ((used - (8#64)) < offset)) || (bdata == (0#64)))
+
 theorem finishCore_bounded (dataSize rva r x y z : Nat) (h : finishCore dataSize rva x y z = some r) :
     r < dataSize := by
   simp only [finishCore] at h
@@ -26,3 +34,4 @@ theorem sectLoop_iterations (dataSize fa sa secOff rva fuel i : Nat) (secs : Lis
       · cases h
 
 end YaraModel.PeRva
+
